@@ -65,6 +65,7 @@ type Env struct {
 	podIdx cache.Indexer
 	setIdx cache.Indexer
 	pvcIdx cache.Indexer
+	cursor map[string]int // how far the watch stream of each resource has been delivered to the cache
 }
 
 var klogOnce sync.Once
@@ -93,7 +94,7 @@ func NewEnv() *Env {
 	kf := kubeinformers.NewSharedInformerFactory(kc, 0)
 	pi := podInformer{kf.Core().V1().Pods(), &capInformer{SharedIndexInformer: kf.Core().V1().Pods().Informer()}}
 	si := setInformer{pf.Apps().V1().StatefulSets(), &capInformer{SharedIndexInformer: pf.Apps().V1().StatefulSets().Informer()}}
-	e := &Env{api: api, kc: kc, pc: pc, podInf: pi.inf, setInf: si.inf}
+	e := &Env{api: api, kc: kc, pc: pc, podInf: pi.inf, setInf: si.inf, cursor: map[string]int{}}
 	e.ssc = statefulset.NewStatefulSetController(pi, si, kf.Core().V1().PersistentVolumeClaims(), kf.Apps().V1().ControllerRevisions(), kc, pc)
 	e.podIdx = pi.inf.GetIndexer()
 	e.setIdx = si.inf.GetIndexer()
@@ -119,6 +120,7 @@ func (e *Env) Reset() {
 	e.podIdx.Replace(nil, "")
 	e.setIdx.Replace(nil, "")
 	e.pvcIdx.Replace(nil, "")
+	e.cursor = map[string]int{}
 	e.DrainQueue()
 }
 
@@ -215,6 +217,40 @@ func (e *Env) CacheSync(res string, fire bool) {
 	case RSet:
 		inf = e.setInf
 	}
+	if fire && e.api.logEvents {
+		// deliver the watch stream: every version of every object, in order - an informer never skips one
+		for _, ev := range e.api.evlog[res][e.cursor[res]:] {
+			old, exists, _ := idx.GetByKey(NS + "/" + ev.Name)
+			switch {
+			case ev.Obj == nil && exists:
+				idx.Delete(old)
+				if inf != nil {
+					for _, h := range inf.handlers {
+						h.OnDelete(old)
+					}
+				}
+			case ev.Obj != nil && exists:
+				c := ev.Obj.DeepCopyObject()
+				idx.Update(c)
+				if inf != nil {
+					for _, h := range inf.handlers {
+						h.OnUpdate(old, c)
+					}
+				}
+			case ev.Obj != nil:
+				c := ev.Obj.DeepCopyObject()
+				idx.Add(c)
+				if inf != nil {
+					for _, h := range inf.handlers {
+						h.OnAdd(c, false)
+					}
+				}
+			}
+		}
+		e.cursor[res] = len(e.api.evlog[res])
+		return
+	}
+	defer func() { e.cursor[res] = len(e.api.evlog[res]) }() // a jump to the latest state consumes the stream
 	seen := map[string]bool{}
 	for _, n := range e.api.Names(res) {
 		o := e.api.Get(res, n)
